@@ -399,7 +399,12 @@ func ruleR02bCompiler(c *Ctx) {
 	cf := c.MustFn(rule, pkgCompiler, "CompileFull")
 	if cf != nil {
 		okS := false
-		for _, b := range cf.Blocks {
+		// the Program may be assembled in CompileFull or in a helper of the package
+		var blocks []*ssa.BasicBlock
+		for _, f := range c.FuncsIn(pkgCompiler) {
+			blocks = append(blocks, f.Blocks...)
+		}
+		for _, b := range blocks {
 			for _, ins := range b.Instrs {
 				if v, _, ok := storeToField(ins, progSources); ok {
 					// v: phi/append chain fed by Next over Range(visitor.sources)
